@@ -174,6 +174,8 @@ def gen_cases(tier, seed):
     # inference sample, and at exhaustion)
     for k in range({'quick': 2, 'thorough': 8}[tier]):
         yield {'family': 'source_fault', 'pipeline': 'SRC', 'pos': k, 'seed': seed, 'tier': tier}
+    for k in range({'quick': 2, 'thorough': 10}[tier]):
+        yield {'family': 'callback_fault', 'pipeline': 'CB', 'pos': k, 'seed': seed, 'tier': tier}
     # I/O errors raised by the operating system while an observer writes (disk full, bad path ...): every I/O event
     # of the writers (crash-lab shims) is a fault point
     for pid in ('P1', 'P2', 'P3', 'P5', 'P6'):
@@ -252,6 +254,82 @@ def run_case(case):
             add('artifact_committed', '%s: %s at %s positioned after the fault was committed' % (where, k, loc),
                 'artifact_committed/%s/%s' % (k, phase_label.split(':')[0]), exc_class=base)
 
+    if fam == 'callback_fault':
+        # the failing code is a USER CALLBACK handed to a built-in step (transform, condition, computed value, finalizer
+        # callback ...), raising exception classes the step itself catches for its own purposes around that call
+        d = lab.df()
+        rows_ = [{'id': i, 'v': str(i), 'n': i} for i in range(12)]
+        sv = d.schema_validator
+        sites = ['set_type_transform/default', 'set_type_transform/drop', 'set_type_transform/clear', 'set_type_transform/ignore',
+                 'add_field_callable', 'add_computed_callable', 'filter_condition', 'validate_field_fn', 'sort_key_callable',
+                 'finalizer_callback', 'finalizer_callback_stats', 'finalizer_callback_stats_optional', 'printer_header_print']
+        for site in sites:
+            for via in ('process', 'results'):
+                cls = rng.choice(['ValueError', 'TypeError', 'KeyError', 'CastError', 'RuntimeError', 'AssertionError',
+                                  'ArithmeticError', 'PrivateError'])
+                tag = 'cb%s_%s_%s' % (case['pos'], site.replace('/', '_'), via)
+                injected = ArithmeticError('injected ' + tag) if cls == 'ArithmeticError' else faultlab.make_exception(cls, tag)
+                at_row = rng.choice([0, 5, 11])
+
+                def boom(row_id, injected=injected, at_row=at_row):
+                    if row_id == at_row:
+                        raise injected
+
+                def make_steps(tag_, site=site, injected=injected, boom=boom):
+                    def transform(v, field_name=None, row=None):
+                        boom(row['id'] if row is not None else int(v))
+                        return v
+
+                    def add_cb(row):
+                        boom(row['id'])
+                        return 1
+
+                    def cond(row):
+                        boom(row['id'])
+                        return True
+
+                    def vfn(v):
+                        boom(v)
+                        return True
+
+                    def keyfn(row):
+                        boom(row['id'])
+                        return '%04d' % row['id']
+
+                    def fin():
+                        raise injected
+
+                    def fin_stats(stats):
+                        raise injected
+
+                    def fin_stats_opt(stats={}):
+                        raise injected
+
+                    def header(name, kw=None, **kws):
+                        raise injected
+                    pol = {'default': {}, 'drop': {'on_error': sv.drop}, 'clear': {'on_error': sv.clear},
+                           'ignore': {'on_error': sv.ignore}}
+                    step = {
+                        'set_type_transform': lambda: d.set_type('v', type='integer', transform=transform,
+                                                                 **pol[site.split('/')[1] if '/' in site else 'default']),
+                        'add_field_callable': lambda: d.add_field('z', 'integer', add_cb),
+                        'add_computed_callable': lambda: d.add_computed_field([{'target': 'z', 'operation': add_cb}]),
+                        'filter_condition': lambda: d.filter_rows(condition=cond),
+                        'validate_field_fn': lambda: d.validate('n', vfn),
+                        'sort_key_callable': lambda: d.sort_rows(keyfn),
+                        'finalizer_callback': lambda: d.finalizer(fin),
+                        'finalizer_callback_stats': lambda: d.finalizer(fin_stats),
+                        'finalizer_callback_stats_optional': lambda: d.finalizer(fin_stats_opt),
+                        'printer_header_print': lambda: d.printer(header_print=header, table_print=lambda *a, **k: None),
+                    }[site.split('/')[0]]()
+                    st = [[dict(r) for r in rows_], step, d.dump_to_path('CD_' + tag_),
+                          d.checkpoint('CC', checkpoint_path='ccp_' + tag_)]
+                    return st, [('dump', 'CD_' + tag_), ('checkpoint', 'ccp_%s/CC/stream.ndjson' % tag_)]
+                counters['faults_armed'] += 1
+                verdict, detail, committed = run_point('CB', tag, make_steps, injected, via)
+                cov['fault_sites']['callback/%s' % site] = 1
+                judge(verdict, detail, committed, 'user callback %s raising at row %s (via %s)' % (site, at_row, via),
+                      cls, 'callback:%s' % site.split('/')[0])
     if fam == 'source_fault':
         d = lab.df()
         n = 150
